@@ -469,7 +469,7 @@ class Builder:
             return
         if self.oblige_hook and (k == "idx" or (k == "un" and e["op"] == "*")):
             self.oblige_hook(self, fr, out, e, "read", stmt or e)
-        if self.oblige_hook and k in ("construct", "call"):
+        if self.oblige_hook and k in ("construct", "call", "initlist"):
             self.oblige_hook(self, fr, out, e, "node", stmt or e)
         if k == "un" and e["op"] in ("++", "--"):
             self.lvalue_subexprs(e["e"], fr, out)
